@@ -175,6 +175,9 @@ func encOptsFor(in *xInput, rng *mrand.Rand, spCert []byte, pub *rsa.PublicKey) 
 	switch in.Recipient {
 	case "match":
 		o.Recipient = spCert
+	case "oldkey":
+		old := world.Get().SP2
+		o.Recipient, o.Pub = old.DER, &old.Key.(*rsa.PrivateKey).PublicKey
 	case "samekey":
 		o.Recipient = reissuedCert(pub)
 	case "mismatch":
@@ -379,7 +382,11 @@ func (Xmlenc) Run(c *orch.Case) *orch.Outcome {
 	sp.SPKeyStore = nil
 	switch in.Keycfg {
 	case "fieldTLS":
-		sp.SPKeyStore = dsig.TLSCertKeyStore{Certificate: [][]byte{certBytes}, PrivateKey: spKey}
+		ks := dsig.TLSCertKeyStore{Certificate: [][]byte{certBytes}, PrivateKey: spKey}
+		if (c.Seed/16)%2 == 1 {
+			ks.Leaf = spKP.Cert // a parsed leaf that may be out of step with Certificate[0]: the octets are what counts
+		}
+		sp.SPKeyStore = ks
 	case "fieldMem":
 		sp.SPKeyStore = memStore{spKey, certBytes}
 	case "setter":
